@@ -87,7 +87,7 @@ func expectedAnswer(s *MState, path string, key []byte) (string, bool) {
 				ids = append(ids, "open:"+pk)
 			}
 			for _, pk := range sortedKeys(s.FrozenProps) {
-				ids = append(ids, "frozen:"+pk)
+				ids = append(ids, "closed:"+pk)
 			}
 			return fmt.Sprint(ids), true
 		}
@@ -95,17 +95,17 @@ func expectedAnswer(s *MState, path string, key []byte) (string, bool) {
 			return "open " + propStr(p), true
 		}
 		if p := s.FrozenProps[k]; p != nil {
-			return "frozen " + propStr(p), true
+			return "closed " + propStr(p), true
 		}
 		return "", false
 	}
 	return "", false
 }
 
-// normStatus: a proposal is either still open (whatever the answer calls the phase: waiting, voting) or frozen
+// normStatus: a proposal is either still open (whatever the answer calls the phase: waiting, voting) or closed (frozen, rejected)
 func normStatus(s string) string {
-	if s == "frozen" {
-		return s
+	if s == "frozen" || s == "rejected" || s == "closed" {
+		return "closed"
 	}
 	return "open"
 }
